@@ -73,16 +73,23 @@ FORMS = [
     ('b-false', {'form': 'b', 'v': False}, 'bool:False'),
     ('date', {'form': 'date', 'v': 43831}, 'date:43831'),
     ('e', {'form': 'e', 'v': '#N/A'}, 'err:#N/A'),
+    # text that begins with "=" (typed as '=E1*2): a constant, not a formula
+    ('s-eq', {'form': 's', 'v': '=E1*2'}, 'text:=E1*2'),
+    ('str-eq', {'form': 'str', 'v': '=E1*2'}, 'text:=E1*2'),
+    ('inlineStr-eq', {'form': 'inlineStr', 'v': '=E1*2'}, 'text:=E1*2'),
     ('f', {'form': 'f', 'f': 'E1+E2*E3'}, None),
     ('f-n', {'form': 'f', 'f': 'E1+E2*E3', 'ct': 'n', 'cv': 99.5}, 'num:99.5'),
     ('f-str', {'form': 'f', 'f': 'E1&"x"', 'ct': 'str', 'cv': 'cached'},
      'text:cached'),
     ('f-b', {'form': 'f', 'f': 'E1>E2', 'ct': 'b', 'cv': True}, 'bool:True'),
+    ('f-date', {'form': 'f', 'f': 'E1+43829', 'ct': 'n', 'cv': 43831,
+                'style': 1}, 'date:43831'),
     ('f-e', {'form': 'f', 'f': 'E1/0', 'ct': 'e', 'cv': '#DIV/0!'},
      'err:#DIV/0!'),
 ]
 HELPERS = {'E1': 2, 'E2': 3, 'E3': 4}
-FORMULA_VALUES = {'E1+E2*E3': 'num:14.0', 'E1&"x"': 'text:2x',
+FORMULA_VALUES = {'E1+43829': 'num:43831.0',
+                  'E1+E2*E3': 'num:14.0', 'E1&"x"': 'text:2x',
                   'E1>E2': 'bool:False', 'E1/0': 'err:#DIV/0!'}
 
 _TMP = None
@@ -95,15 +102,32 @@ def tmp_path(name):
     return os.path.join(_TMP.name, '%d_%s.xlsx' % (os.getpid(), name))
 
 
-def load(sheets, names=None, ignore=()):
+def load(sheets, names=None, ignore=(), date1904=False, hidden=(),
+         how='ignore-list'):
     path = tmp_path('wb')
     with open(path, 'wb') as fp:
-        fp.write(R.build(sheets, names))
+        fp.write(R.build(sheets, names, date1904, hidden))
     import warnings
     with warnings.catch_warnings():
         warnings.simplefilter('ignore')
+        if how == 'default':
+            return lib.ModelCompiler().read_and_parse_archive(path)
+        if how == 'ignore-hidden':
+            return lib.ModelCompiler().read_and_parse_archive(
+                path, ignore_hidden=True)
         return lib.ModelCompiler().read_and_parse_archive(
             path, ignore_sheets=list(ignore))
+
+
+# a date constant / a date-formatted cached result in a workbook that uses the
+# 1904 date system denotes the day 1462 days later
+EPOCH_SHIFT = 1462
+
+
+def shifted(want, date1904):
+    if date1904 and want and want.startswith('date:'):
+        return 'date:%d' % (int(want[5:]) + EPOCH_SHIFT)
+    return want
 
 
 def lenient(got, want):
@@ -166,8 +190,9 @@ def eval_want(spec, const_want):
 
 
 # ---- family: forms -------------------------------------------------------------
-def run_form_isolated(fi, pos, sheet_index, ctx):
+def run_form_isolated(fi, pos, sheet_index, ctx, date1904=False):
     fname, spec, want = FORMS[fi]
+    want = shifted(want, date1904)
     titles = ['Sheet1', 'My Sheet']
     sheets = []
     for i, t in enumerate(titles):
@@ -175,11 +200,13 @@ def run_form_isolated(fi, pos, sheet_index, ctx):
         if i == sheet_index:
             cells[GRID[pos]] = spec
         sheets.append((t, cells))
-    key0 = 'C11/form/%s/%s/sheet=%d' % (fname, GRID[pos], sheet_index)
-    inputs = {'family': 'form', 'fi': fi, 'pos': pos, 'sheet': sheet_index}
-    tags = ['form:' + fname]
+    key0 = 'C11/form%s/%s/%s/sheet=%d' % ('-1904' if date1904 else '', fname,
+                                          GRID[pos], sheet_index)
+    inputs = {'family': 'form', 'fi': fi, 'pos': pos, 'sheet': sheet_index,
+              'date1904': date1904}
+    tags = ['form:' + fname] + (['epoch:1904'] if date1904 else [])
     try:
-        model = load(sheets)
+        model = load(sheets, date1904=date1904)
     except Exception as exc:  # noqa: BLE001
         ctx.fail(key0 + '/load', tags, inputs, 'loads', lib.exc_obs(exc))
         return
@@ -233,7 +260,8 @@ def run_form_latin(rot, sheet_index, ctx):
         for coord, (fname, spec, want) in placed.items():
             if 'f' in spec:
                 d['Sheet1!' + coord] = '=' + spec['f']
-            elif spec['form'] in ('n', 's', 'str', 'inlineStr', 'b'):
+            elif spec['form'] in ('n', 's', 'str', 'inlineStr', 'b') and \
+                    not str(spec['v']).startswith('='):
                 d['Sheet1!' + coord] = spec['v']
         if expressible:
             try:
@@ -308,6 +336,52 @@ def run_sheets(order, ignore_mask, ctx):
                   lib.norm(100 + i + 7 + i),
                   tags + ['oracle:evaluate', 'ref:unqualified-range'], inputs,
                   nontriv)
+
+
+# ---- family: two loads in one process --------------------------------------------
+# What a load yields depends on its own arguments only - not on an earlier load
+# in the same process (another workbook, other ignore arguments).
+LOAD_TITLES = ['Sheet1', 'Calc', 'My Sheet']
+LOAD_HIDDEN = ('Calc',)
+LOAD_OPTS = [('default', ()), ('ignore-hidden', ()), ('ignore-list', ()),
+             ('ignore-list', ('Calc',)), ('ignore-list', ('Sheet1',)),
+             ('ignore-list', ('My Sheet', 'Calc'))]
+
+
+def load_expect(how, ignore):
+    gone = set(ignore)
+    if how == 'ignore-hidden':
+        gone |= set(LOAD_HIDDEN)
+    return {'%s!%s' % (t, coord) for i, t in enumerate(LOAD_TITLES)
+            if t not in gone for coord in sheet_cells(i)}
+
+
+def run_loads(first, second, ctx):
+    sheets = [(t, sheet_cells(i)) for i, t in enumerate(LOAD_TITLES)]
+    key0 = 'C11/loads/%d,%d' % (first, second)
+    inputs = {'family': 'loads', 'first': first, 'second': second}
+    got = []
+    for n, oi in enumerate((first, second)):
+        how, ignore = LOAD_OPTS[oi]
+        tags = ['loads:two', 'how:' + how,
+                'position:%s' % ('first', 'second')[n]]
+        try:
+            model = load(sheets, ignore=ignore, hidden=LOAD_HIDDEN, how=how)
+        except Exception as exc:  # noqa: BLE001
+            ctx.fail('%s/load%d' % (key0, n), tags, inputs, 'loads',
+                     lib.exc_obs(exc))
+            return
+        addrs = {a for a, c in model.cells.items()
+                 if c.formula is not None or c.value not in (None, '')}
+        ctx.check('%s/addresses%d' % (key0, n), repr(sorted(addrs)),
+                  repr(sorted(load_expect(how, ignore))),
+                  tags + ['oracle:addresses'], inputs, n == 1)
+        for i, t in enumerate(LOAD_TITLES):
+            if '%s!D1' % t in load_expect(how, ignore):
+                ctx.check('%s/eval%d/%d' % (key0, n, i),
+                          lib.eval_addr(model, '%s!D1' % t),
+                          lib.norm(100 + i + 7 + i),
+                          tags + ['oracle:evaluate'], inputs, n == 1)
 
 
 # ---- family: shared formulas ------------------------------------------------------
@@ -571,6 +645,9 @@ def plan(tier):
         shards.append({'family': 'shared', 'ai': ai})
     shards.append({'family': 'names'})
     shards.append({'family': 'shared-multi'})
+    for fi in range(len(FORMS)):
+        shards.append({'family': 'form', 'fi': fi, 'date1904': True})
+    shards.append({'family': 'loads'})
     return shards
 
 
@@ -579,9 +656,18 @@ def run_shard(shard, ctx):
     if f == 'form':
         for pos in range(len(GRID)):
             for si in (0, 1):
-                run_form_isolated(shard['fi'], pos, si, ctx)
+                run_form_isolated(shard['fi'], pos, si, ctx,
+                                  shard.get('date1904', False))
         ctx.sample({'family': f, 'form': FORMS[shard['fi']][0],
-                    'spec': FORMS[shard['fi']][1]})
+                    'spec': FORMS[shard['fi']][1],
+                    'date1904': shard.get('date1904', False)})
+    elif f == 'loads':
+        for a in range(len(LOAD_OPTS)):
+            for b in range(len(LOAD_OPTS)):
+                run_loads(a, b, ctx)
+        ctx.sample({'family': f, 'sheets': LOAD_TITLES,
+                    'hidden': list(LOAD_HIDDEN),
+                    'history': 'load(ignore_hidden=True); load()'})
     elif f == 'latin':
         for si in (0, 1):
             run_form_latin(shard['rot'], si, ctx)
@@ -604,7 +690,10 @@ def run_shard(shard, ctx):
 def replay(inputs, ctx):
     f = inputs['family']
     if f == 'form':
-        run_form_isolated(inputs['fi'], inputs['pos'], inputs['sheet'], ctx)
+        run_form_isolated(inputs['fi'], inputs['pos'], inputs['sheet'], ctx,
+                          inputs.get('date1904', False))
+    elif f == 'loads':
+        run_loads(inputs['first'], inputs['second'], ctx)
     elif f == 'latin':
         run_form_latin(inputs['rot'], inputs['sheet'], ctx)
     elif f == 'sheets':
